@@ -240,6 +240,20 @@ pub(crate) fn serialize_attribute<'a, N: Normalizer>(
                 change = true;
                 result.push_str("&quot;")
             }
+            // literal tabs, line feeds and carriage returns would be
+            // normalized to spaces when the attribute is parsed again
+            '\t' => {
+                change = true;
+                result.push_str("&#9;")
+            }
+            '\n' => {
+                change = true;
+                result.push_str("&#10;")
+            }
+            '\r' => {
+                change = true;
+                result.push_str("&#13;")
+            }
             _ => result.push(c),
         }
     }
